@@ -34,7 +34,7 @@ import numpy as np
 from mc import seqx
 from mc.core import HarnessError
 
-from molli.chem import Atom, Bond, Molecule, Structure, Element, ConformerEnsemble
+from molli.chem import Atom, Bond, Molecule, Structure, Element, ConformerEnsemble, Promolecule, Connectivity, CartesianGeometry
 
 LEVEL = "model_checking"
 
@@ -89,6 +89,18 @@ START_NAMES = ["empty", "chain3", "star4", "mol2", "clone", "unpickled", "clone2
 BASE_OF = {"clone": "star4", "unpickled": "chain3", "clone2": "chain3", "cloned": "chain3", "twins": "chain3"}
 KINDS = {"Molecule": Molecule, "Structure": Structure}
 
+# constructor start states: every form of `other` x override keywords (none / each alone / all)
+CTOR_FORMS = ["none", "atoms", "elements", "Promolecule", "Connectivity", "CartesianGeometry", "Structure", "Molecule", "Conformer"]
+OVR_KEYS = ["coords", "atomic_charges", "charge", "mult", "name"]
+CT_ELEMS, CT_BONDS = ["C", "O", "H"], [(0, 1), (1, 2)]
+
+
+def ctor_starts(kind):
+    keys = [k for k in OVR_KEYS if not (kind == "Structure" and k == "atomic_charges")]
+    combos = [()] + [(k,) for k in keys] + [tuple(keys)]
+    return [f"ctor|{form}|{'+'.join(c) or '-'}" for form in CTOR_FORMS for c in combos]
+
+
 # argument kinds of the operations that take an iterable of bonds
 ARG_CLASS = {"list": "sequence", "tuple": "sequence", "set": "set", "gen": "one-shot", "iter": "one-shot", "map": "one-shot"}
 
@@ -109,7 +121,7 @@ class Rec:
 
 
 class MState:
-    __slots__ = ("kind", "start", "mol", "atoms", "ident", "order", "bonds", "hist", "keep", "nmut", "view", "vkind", "confs", "vbonds", "vorder", "cache", "partners", "vxyz", "vq")
+    __slots__ = ("kind", "start", "mol", "atoms", "ident", "order", "bonds", "hist", "keep", "nmut", "view", "vkind", "confs", "vbonds", "vorder", "cache", "partners", "vxyz", "vq", "meta")
 
     def __init__(self):
         self.kind = None
@@ -131,6 +143,7 @@ class MState:
         self.partners = []  # [role, object, snapshot by value]
         self.vxyz = None  # system V: (conformer, aid) -> coordinate the model expects
         self.vq = None  # system V: (conformer, aid) -> charge
+        self.meta = None  # constructor start states: expected name / charge / mult
 
 
 def exc_name(e):
@@ -183,6 +196,9 @@ class MSys:
     def opclass(op):
         k = op[0]
         if k == "start":
+            if op[2].startswith("ctor|"):
+                _, form, ov = op[2].split("|")
+                return f"start[{op[1]}({form}" + ("".join(f",{x}=" for x in ov.split("+")) if ov != "-" else "") + ")]"
             return f"start[{op[2]}]"
         if k == "add":
             return "add_atom(with-charge)" if op[2] == "ch" else "add_atom(no-charge)"
@@ -299,6 +315,8 @@ class MSys:
             partners.append(["caller-coords-array", C])
             if has_q:
                 partners.append(["caller-charges-array", Q])
+        elif name.startswith("ctor|"):
+            return self._start_ctor(st, op, cls, has_q)
         else:  # pragma: no cover
             raise HarnessError(f"unknown start {name}")
         st.mol = m
@@ -311,6 +329,109 @@ class MSys:
             st.ident[id(a)] = k
         st.order = list(range(len(real)))
         st.bonds = [_pair(a, b) for a, b in bonds]
+        st.partners = [[role, o, _psnap(o)] for role, o in partners]
+        if self.quiet:
+            self.refresh(st)
+            return True
+        sym, what = self.verify(st)
+        if sym:
+            self.viol(st, op, sym, what)
+            return False
+        return True
+
+    def _ctor_source(self, form, partners):
+        """the `other` argument of the constructor (harness values: name 'src', charge -1, mult 2)"""
+        n = len(CT_ELEMS)
+        atoms = [Atom(e, label=label_of(k)) for k, e in enumerate(CT_ELEMS)]
+        xyz = [list(coord_of(k, self.pose)) for k in range(n)]
+        q = [charge_of(k) for k in range(n)]
+        if form == "none":
+            return None, None
+        if form == "atoms":
+            return atoms, atoms
+        if form == "elements":
+            return list(CT_ELEMS), None
+        if form == "Promolecule":
+            o = Promolecule(atoms, name="src", charge=-1, mult=2)
+        elif form == "Connectivity":
+            o = Connectivity(atoms, name="src", charge=-1, mult=2)
+        elif form == "CartesianGeometry":
+            o = CartesianGeometry(atoms, name="src", charge=-1, mult=2, coords=xyz)
+        elif form == "Structure":
+            o = Structure(atoms, name="src", charge=-1, mult=2, coords=xyz)
+        elif form == "Molecule":
+            o = Molecule(atoms, name="src", charge=-1, mult=2, coords=xyz, atomic_charges=q)
+        else:  # Conformer 1 of a two-conformer ensemble
+            mols = []
+            for k in range(2):
+                mk = Molecule([Atom(e, label=label_of(i)) for i, e in enumerate(CT_ELEMS)], name="src", charge=-1, mult=2, coords=[list(coord_of(i, self.pose, k)) for i in range(n)], atomic_charges=[charge_of(i, k) for i in range(n)])
+                for a, b in CT_BONDS:
+                    mk.connect(a, b)
+                mols.append(mk)
+            ens = ConformerEnsemble(mols)
+            partners.append(["ctor-source-ensemble", ens])
+            return ens[1], None
+        if isinstance(o, Connectivity):
+            for a, b in CT_BONDS:
+                o.connect(a, b)
+        partners.append(["ctor-source", o])
+        return o, None
+
+    def _start_ctor(self, st, op, cls, has_q):
+        """cls(other, **overrides): the model's initial state is the given value where one is given,
+        else the source's, else the documented default"""
+        _, kind, name = op
+        _, form, ov = name.split("|")
+        keys = [] if ov == "-" else ov.split("+")
+        n = len(CT_ELEMS)
+        partners = []
+        other, same_atoms = self._ctor_source(form, partners)
+        conf = 1 if form == "Conformer" else 0
+        kw = {}
+        o_xyz = [(coord_of(k, self.pose)[0] + 256.0, coord_of(k, self.pose)[1], coord_of(k, self.pose)[2]) for k in range(n)]
+        o_q = [charge_of(k) + 64.0 for k in range(n)]
+        if "coords" in keys:
+            kw["coords"] = np.array(o_xyz, dtype=np.float64)
+            partners.append(["caller-coords-array", kw["coords"]])
+        if "atomic_charges" in keys:
+            kw["atomic_charges"] = np.array(o_q, dtype=np.float64)
+            partners.append(["caller-charges-array", kw["atomic_charges"]])
+        if "charge" in keys:
+            kw["charge"] = 2
+        if "mult" in keys:
+            kw["mult"] = 3
+        if "name" in keys:
+            kw["name"] = "over"
+        try:
+            m = cls(n_atoms=n, **kw) if other is None else cls(other, **kw)
+        except Exception as e:
+            self.viol(st, op, "constructor-raised", f"{kind}({form}{', ' if kw else ''}{', '.join(k + '=' for k in kw)}) raised {exc_name(e)}: {e}")
+            return False
+        st.mol = m
+        st.keep.append(other)
+        real = list(m.atoms)
+        if len(real) != n or (same_atoms is not None and any(a is not b for a, b in zip(real, same_atoms))):
+            self.viol(st, op, "wrong-atom-set", f"constructed object lists {len(real)} atoms; expected {n}" + (" (the very atoms handed in)" if same_atoms else ""))
+            return False
+        geometric = form in ("CartesianGeometry", "Structure", "Molecule", "Conformer")
+        charged = form in ("Molecule", "Conformer")
+        has_src = form not in ("none", "atoms", "elements")
+        for k, a in enumerate(real):
+            if form == "none":
+                try:
+                    el = a.element.symbol
+                except Exception:
+                    el = "?"
+            else:
+                el = CT_ELEMS[k]
+            lab = label_of(k) if form not in ("none", "elements") else None
+            xyz = o_xyz[k] if "coords" in keys else (coord_of(k, self.pose, conf) if geometric else NAN3)
+            ch = o_q[k] if "atomic_charges" in keys else (charge_of(k, conf) if charged else NEUTRAL)
+            st.atoms[k] = Rec(a, el, lab, xyz, ch if has_q else UNSPEC)
+            st.ident[id(a)] = k
+        st.order = list(range(n))
+        st.bonds = [_pair(a, b) for a, b in CT_BONDS] if form in ("Connectivity", "Structure", "Molecule", "Conformer") else []
+        st.meta = {"name": "over" if "name" in keys else ("src" if has_src else "unknown"), "charge": 2 if "charge" in keys else (-1 if has_src else 0), "mult": 3 if "mult" in keys else (2 if has_src else 1)}
         st.partners = [[role, o, _psnap(o)] for role, o in partners]
         if self.quiet:
             self.refresh(st)
@@ -427,6 +548,11 @@ class MSys:
                 return "bond-parent-raises", f"bond.parent raised {exc_name(e)}: {e}"
             if p is not m:
                 return "bond-parent-wrong", f"bond #{k} reports parent {p!r}"
+        if st.meta:
+            for fld, exp in st.meta.items():
+                got = getattr(m, fld, "<absent>")
+                if got != exp or type(got) is not type(exp):
+                    return f"molecule-field-wrong:{fld}", f"mol.{fld} is {got!r}; the constructor was given / inherits {exp!r}"
         # -- verified: refresh the observed order, pin values nobody specified
         st.order = ids
         for pos, aid in enumerate(ids):
@@ -1137,8 +1263,12 @@ def _psnap(o):
     """by-value snapshot of a partner object (public accessors only)"""
     if isinstance(o, np.ndarray):
         return {"array": (str(o.dtype), o.shape, o.tobytes())}
-    d = {"atoms": tuple(id(a) for a in o.atoms), "coords": (str(o.coords.dtype), o.coords.shape, o.coords.tobytes())}
-    d["bonds"] = tuple((id(b.a1), id(b.a2)) for b in o.bonds)
+    d = {"atoms": tuple(id(a) for a in o.atoms), "name": o.name, "charge": o.charge, "mult": o.mult}
+    c = getattr(o, "coords", None)
+    if c is not None:
+        d["coords"] = (str(c.dtype), c.shape, c.tobytes())
+    if hasattr(o, "bonds"):
+        d["bonds"] = tuple((id(b.a1), id(b.a2)) for b in o.bonds)
     q = getattr(o, "atomic_charges", None)
     if q is not None:
         d["atomic_charges"] = (str(q.dtype), q.shape, q.tobytes())
@@ -1466,7 +1596,38 @@ def _repro_of(hist, pose):
         for a, b in bonds:
             L.append(f"{var}.connect({a}, {b})")
 
-    if name in STARTS:
+    if name.startswith("ctor|"):
+        _, form, ov = name.split("|")
+        keys = [] if ov == "-" else ov.split("+")
+        L[1] = "from molli.chem import *"
+        n = len(CT_ELEMS)
+        xyz = [list(coord_of(k, pose)) for k in range(n)]
+        q = [charge_of(k) for k in range(n)]
+        at = "[" + ", ".join(f"Atom({e!r}, label={label_of(k)!r})" for k, e in enumerate(CT_ELEMS)) + "]"
+        if form == "none":
+            other = f"n_atoms={n}"
+        elif form == "atoms":
+            other = at
+        elif form == "elements":
+            other = repr(CT_ELEMS)
+        else:
+            base = "Molecule" if form == "Conformer" else form
+            kws = "name='src', charge=-1, mult=2"
+            if base in ("CartesianGeometry", "Structure", "Molecule"):
+                kws += f", coords={xyz!r}"
+            if base == "Molecule":
+                kws += f", atomic_charges={q!r}"
+            L.append(f"src = {base}({at}, {kws})")
+            if base in ("Connectivity", "Structure", "Molecule"):
+                L.append("src.connect(0, 1); src.connect(1, 2)")
+            if form == "Conformer":
+                L.append("src2 = Molecule(src); src2.translate([0, 0, 16.0]); src2.atomic_charges = src.atomic_charges + 4.0")
+                L.append("ens = ConformerEnsemble([src, src2]); src = ens[1]")
+            other = "src"
+        ovs = {"coords": f"coords=np.array({[[c[0] + 256.0, c[1], c[2]] for c in xyz]!r})", "atomic_charges": f"atomic_charges=np.array({[x + 64.0 for x in q]!r})", "charge": "charge=2", "mult": "mult=3", "name": "name='over'"}
+        L.append(f"m = {kind}({', '.join([other] + [ovs[k] for k in keys])})")
+        L.append("print('constructed:', m.name, m.charge, m.mult, m.coords.tolist(), getattr(m, 'atomic_charges', None))")
+    elif name in STARTS:
         built("m", *STARTS[name])
     elif name == "clone":
         built("src", *STARTS["star4"])
@@ -1492,7 +1653,7 @@ def _repro_of(hist, pose):
     used = 0
 
     # ids are only needed for the values handed to add_atom: recompute them like the harness does
-    ids = list(range(len(STARTS[BASE_OF[name]][0]))) if name in BASE_OF else list(range(len(STARTS.get(name, (MOL2_ELEMS,))[0])))
+    ids = list(range(len(STARTS[BASE_OF[name]][0]))) if name in BASE_OF else (list(range(len(CT_ELEMS))) if name.startswith("ctor|") else list(range(len(STARTS.get(name, (MOL2_ELEMS,))[0]))))
     live = set(ids)
 
     def fresh():
@@ -1605,6 +1766,22 @@ def _inits_M(ctx):
     return good
 
 
+def _inits_ctor(ctx):
+    sm = MSys(ctx, label="initc")
+    good = []
+    for kind in KINDS:
+        for name in ctor_starts(kind):
+            op = ("start", kind, name)
+            st = MState()
+            ok = sm.step(st, op)
+            ctx.count(evaluations=1, traces=1, transitions=1)
+            if ok:
+                good.append([list(op)])
+                ctx.outcome(seqx._h(sm.observe(st)))
+            sm.dispose(st)
+    return good
+
+
 def _inits_V(ctx):
     sv = VSys(ctx, label="initv")
     good = []
@@ -1641,6 +1818,11 @@ def run(ctx):
         "demanded exactly when a2 is gone and exactly one atom was created, otherwise nothing is demanded of the routine's semantics. "
         "add_implicit_hydrogens computes every position before its first write and never deletes, join / concatenate build a new "
         "object: no other routine in scope has the read-delete-write shape; where hydrogens go is C16",
+        "constructor start states: cls(other, **overrides) for other in {n_atoms only, atom list, element list, Promolecule, "
+        "Connectivity, CartesianGeometry, Structure, Molecule, Conformer} x overrides {none, each of coords= atomic_charges= charge= "
+        "mult= name= alone, all}; the model starts from the given value where one is given, else the source's (coordinates from a "
+        "geometric source, charges from a Molecule / Conformer, bonds from a Connectivity), else the documented default (NaN row, 0.0, "
+        "'unknown', 0, 1); the source and the caller's arrays stay alive as partners",
         "start states clone / clone2 / cloned / twins / unpickled keep their partner objects (source, clones, a twin built from the "
         "same coords and charges arrays, the caller's arrays) alive; after every step every partner must be exactly what it was "
         "(the property holds for every molecule alive, and the caller's arrays were never handed over)",
@@ -1726,6 +1908,16 @@ def run(ctx):
         ctx.bound["core_alphabet_depth"] = dcore
         ctx.bound["core_starts"] = name(small)
         phase("3_core")
+
+    # (3a) start states built by every constructor form x override keywords
+    cin = _inits_ctor(ctx)
+    ctx.note("constructor_start_states_sound", len(cin))
+    ctx.bound["constructor_forms"] = CTOR_FORMS
+    ctx.bound["constructor_overrides"] = "none / each of coords, atomic_charges, charge, mult, name alone / all"
+    seqx.pbfs(ctx, mk_full if thorough else mk_red, cin, 1, nproc=nproc, chunk=16)
+    seqx.pbfs(ctx, mk_core, cin, 3 if thorough else 2, nproc=nproc, chunk=32)
+    ctx.bound["constructor_starts_depth"] = "full alphabet 1, core alphabet " + ("3" if thorough else "2")
+    phase("3a_constructor_starts")
 
     # (3b) a Substructure is created first and HELD while the parent is edited
     hv = [h for h in inits if (h[0][1], h[0][2]) in (("Molecule", "chain3"), ("Molecule", "star4"), ("Structure", "mol2"))]
